@@ -12,7 +12,7 @@ INFO = {
                "integer OR of two literals; that an integer literal becomes an integer payload by a direct integer "
                "parse of the right width and a double goes through the one f64->JSON normalisation whose "
                "integrality window is exact (signed zeros included); input is pulled one byte at a time through io::Bytes "
-               "and a short read is never taken for the end of input. No stage but the limiter can stop the read loop (Break origin). No parse error is built under a test of the reader's own state (only of bytes read); parse_to_double accepts every finite double unchanged (zeros, subnormals, f64::MAX) and rejects inf / NaN; for representative non-surrogate values a \\u escape appends exactly char::from_u32(value) and reads nothing more.",
+               "and a short read is never taken for the end of input. No stage but the limiter can stop the read loop (Break origin). No parse error is built under a test of the reader's own state (only of bytes read); parse_to_double accepts every finite double unchanged (zeros, subnormals, f64::MAX) and rejects inf / NaN; for representative non-surrogate values a \\u escape appends exactly char::from_u32(value) and reads nothing more. Every digit read_digits consumes is appended to the number's text; numbers are written with a plain `{}` of their own type; every Clone impl of the data types is field-wise.",
     "not_decided": "That values come out unchanged as a whole (UTF-8 decoding by String::from_utf8, str::parse, one "
                    "row per value at run time): those are run-time value statements.",
     "trusted": ["sa/tables/rfc8259.toml (transcribed from RFC 8259)", "std: str::parse::<u64|i64|f64>, String::from_utf8"],
@@ -28,11 +28,16 @@ def run(ctx, rep):
     PR.escapes(rep, lib)
     PR.ws_struct(rep, lib)
     PR.input_decides(rep, lib)
+    PR.digits(rep, lib)
     NR.parse_direct(rep, lib)
     NR.int_ctor(rep, lib)
     NR.float_window(rep, lib)
     NR.float_ctor(rep, lib)
     NR.double_accept(rep, lib)
+    # each row denotes the same value: numbers are written with a plain `{}` of their own type (shared with C19)
+    NR.print_direct(rep, lib)
+    from rules import common as _common
+    _common.clone_faithful(rep, lib)
     # nothing but the limiter may stop the read loop: a Break from anywhere else silently drops the values that follow
     from rules import pipeline_rules as _PL
     _PL.break_origin(rep, lib)
